@@ -38,6 +38,7 @@ EXPLANATION = (
 EXPLANATION += (' R-C02-4: find_turns decides reversal and plateau only by exact sign tests of first differences (D*D < 0, D == 0): no tolerance, no rounding, no sign-dependent selection. R-C02-5: the three-point front indices are np.argmax / np.argmin (first occurrence) of the same carried residual and feed the matching guards.')
 EXPLANATION += (" R-C02-6: in the three- and four-point process() every path from _new_turns to a normal exit runs the counting kernel (CFG must-pass), so no chunk's turning points or trailing sample bypass the counting rule.")
 EXPLANATION += (" R-C02-7: the compiled kernels use no single-precision function or cast (fabsf, float32, ...) on ranges, and no attribute of the detector base class holds a view of the caller's chunk (effect analysis, shared with R-C01-7).")
+EXPLANATION += (' R-C02-8 (shared with R-C03-5): no turning point is lost to the underflow / overflow of a product of two differences - the reversal test is made on their signs.')
 ASSUMPTIONS = [
     "the compiled rainflow_ext kernels are built from extension.pyx by setup.py",
     "fabs/np.abs are the real absolute value; C doubles compare like reals (no NaN after find_turns cleaned them)",
@@ -237,6 +238,13 @@ def run(ctx):
     ctx.attempt(_r5_front)
     ctx.attempt(_r6_all_turns_counted)
     ctx.attempt(_r7_precision_and_state)
+    ctx.attempt(_r8_sign_tests)
+
+
+def _r8_sign_tests(ctx):
+    """shared with R-C03-5: no turning point is lost to the underflow of a product of differences"""
+    from .c03 import sign_tests_exact
+    sign_tests_exact(ctx, "R-C02-8")
 
 
 NARROWING = ("fabsf", "float32", "np.float32", "np.single", "np.half", "np.float16", "roundf", "floorf", "ceilf", "lroundf")
@@ -991,6 +999,26 @@ def _closing_if(tree, fname):
 def variants():
     out = []
 
+    def raw_product(tree):
+        f = find_func(tree, "find_turns")
+        for st in f.body:
+            if isinstance(st, ast.Assign) and isinstance(st.value, ast.Call) and call_name(st.value) == "np.sign" and \
+                    isinstance(st.targets[0], ast.Name) and st.targets[0].id == "diffs":
+                st.value = st.value.args[0]
+                return True
+        return False
+    out.append(witness("reversal test on the product of the raw differences (underflow)", "src/pylife/stress/rainflow/general.py",
+                       raw_product, "R-C02-8"))
+
+    def two_comparisons(tree):
+        f = find_func(tree, "find_turns")
+        for st in f.body:
+            if isinstance(st, ast.Assign) and isinstance(st.targets[0], ast.Name) and st.targets[0].id == "peak_turns":
+                st.value = parse_expr("((diffs[:-1] > 0) & (diffs[1:] < 0)) | ((diffs[:-1] < 0) & (diffs[1:] > 0))")
+                return True
+        return False
+    out.append(twin("peak test written as sign comparisons", "src/pylife/stress/rainflow/general.py", two_comparisons))
+
     def fabsf_guard(tree):
         f = find_func(tree, "threepoint_loop")
         n = 0
@@ -1047,11 +1075,14 @@ def variants():
                        front_argsort, "R-C02-5"))
 
     def isclose_plateau(tree):
+        # (on the signs of the differences np.isclose(sign, 0) would be exact: the tolerance is put on the differences themselves)
         f = find_func(tree, "find_turns")
-        for n in ast.walk(f):
-            if isinstance(n, ast.Compare) and isinstance(n.ops[0], ast.Eq) and isinstance(n.comparators[0], ast.Constant) \
-                    and n.comparators[0].value == 0:
-                return replace_node(n, parse_expr("np.isclose(%s, 0.0)" % ast.unparse(n.left)))
+        for st in f.body:
+            if isinstance(st, ast.Assign) and isinstance(st.value, ast.Call) and call_name(st.value) == "np.sign" and \
+                    isinstance(st.targets[0], ast.Name) and st.targets[0].id == "diffs":
+                d = ast.unparse(st.value.args[0])
+                st.value = parse_expr("np.sign(np.where(np.isclose(%s, 0.0), 0.0, %s))" % (d, d))
+                return True
         return False
     out.append(witness("plateau detection with np.isclose", "src/pylife/stress/rainflow/general.py", isclose_plateau, "R-C02-4"))
 
